@@ -56,6 +56,16 @@ def lean_bounds(chk, d, ents):
             for c in cases:
                 chk.programs += 1
                 space = entity_perm_space(c)
+                full = len(space)
+                if len(space) > (4000 if chk.tier == "thorough" else 300):
+                    # large products (hexahedron/prism interior facets): every entity tuple at the extreme
+                    # permutation tuples, every permutation tuple at the extreme entity tuples, and a seeded sample
+                    es = sorted({s_[0] for s_ in space}); ps = sorted({s_[1] for s_ in space})
+                    keep = {(e_, p_) for e_ in es for p_ in (ps[0], ps[-1])} | {(e_, p_) for p_ in ps for e_ in (es[0], es[-1])}
+                    rs = np.random.default_rng(chk.seed)
+                    keep |= {space[int(i)] for i in rs.choice(len(space), size=20, replace=False)}
+                    space = sorted(keep)
+                    chk.notes.setdefault("reduced_entity_perm_products", []).append(f"{c.name}: {len(space)} of {full}")
                 bad = None
                 for ent, prm in space:
                     r = d.ask(f"(exec shape {c.ast_sexp} {shape_inputs(c, ent, prm)} ())")
@@ -161,7 +171,8 @@ def run(chk):
         lean_bounds(chk, d, ents)
     sel = ents if chk.tier == "thorough" else [e for e in ents if e.name in (
         "laplace_coef_tet_p1", "stokes_mixed", "ext_facet_tet", "int_facet_tri", "int_facet_tet", "vertex_tri",
-        "one_sided_dS", "prism", "subdomains", "tensor_constant", "expr_tensor", "expr_facet", "nonaffine_quad")]
+        "one_sided_dS", "prism", "subdomains", "tensor_constant", "expr_tensor", "expr_facet", "nonaffine_quad",
+        "derivative_drop_first", "int_facet_hex")]
     c_search(chk, sel)
     if chk.tier == "thorough":
         chk.leanchecker(["FfcxProofs.C08"])
